@@ -252,6 +252,7 @@ impl<'a> Explorer<'a> {
   /// apply one puncture to `g` under the model and check the resulting state
   fn step(&self, rec: &mut Rec, g: &mut GGM, p: &mut [bool; 256], history: &mut Vec<u8>, x: u8) -> bool {
     rec.transitions += 1;
+    rec.evals += 1;
     rec.ev("punctures");
     let before = p[x as usize];
     let r = g.puncture(&[x]);
